@@ -56,6 +56,9 @@ type Config struct {
 	MaxSteps int64         // step budget; exhausting it aborts the run
 	Horizon  time.Duration // simulated-time horizon; reaching it ends the run
 	KeepLog  bool          // keep the full event log text (replay / debugging)
+	// LivelockSteps aborts the run when that many operations were executed without a
+	// single completed visible operation and without the clock advancing (0: off).
+	LivelockSteps int64
 }
 
 // Sim is one simulated execution.
@@ -88,11 +91,13 @@ type Sim struct {
 	sig  uint64
 
 	aborted     bool
+	livelock    bool
 	abortReason string
 	horizonHit  bool
 	panics      []string
 
 	nextWaitStep int64 // smallest step target among step waiters (or max)
+	progressStep int64 // step of the last record or clock advance
 
 	multiReady int64 // scheduler visits at which >1 task was ready
 	switches   int64
@@ -176,6 +181,7 @@ type Result struct {
 	Hash        uint64
 	Sig         uint64
 	Aborted     bool
+	Livelock    bool // aborted because tasks kept running without completing any visible operation
 	AbortReason string
 	HorizonHit  bool
 	AllDone     bool
@@ -252,6 +258,7 @@ func Run(cfg Config, ch *Choices, main func()) *Result {
 
 			s.quiescents++
 			s.mix(0x51, uint64(s.now()))
+			s.progressStep = s.step
 
 			ev, ok := eventWait(s, horizon)
 			if !ok {
@@ -303,6 +310,7 @@ func Run(cfg Config, ch *Choices, main func()) *Result {
 		Hash:        s.hash,
 		Sig:         s.sig,
 		Aborted:     s.aborted,
+		Livelock:    s.livelock,
 		AbortReason: s.abortReason,
 		HorizonHit:  s.horizonHit,
 		AllDone:     allDone,
@@ -585,6 +593,11 @@ func enter(site string, kind uint64) (*Sim, *task) {
 
 	if s.step > s.cfg.MaxSteps {
 		s.abort(t, "step budget exhausted")
+	}
+
+	if s.cfg.LivelockSteps > 0 && s.step-s.progressStep > s.cfg.LivelockSteps {
+		s.livelock = true
+		s.abort(t, "livelock: "+site)
 	}
 
 	if s.step >= s.nextWaitStep || s.ch.choose(chPreempt, 2) == 1 {
